@@ -16,6 +16,7 @@ type SingleCfg struct {
 	Expand   bool // binary operands may need implicit expansion (broadcast-compatible pairs)
 	Wild     bool // forward-only value regime: zeros, ties, extreme magnitudes
 	Distinct bool // prefer pairwise different dimension sizes (reductions)
+	Bits     bool // arbitrary payloads: NaN, +-Inf, -0, denormals (value-parametric operations)
 }
 
 // DrawShapeN draws a shape of rank minRank..maxRank with dims 1..maxDim and <= maxElems elements.
@@ -90,6 +91,8 @@ func DrawBroadcastSrc(t *rapid.T, target []int) []int {
 	return s
 }
 
+var specialBits = []float64{0, math.Copysign(0, -1), math.NaN(), math.Inf(1), math.Inf(-1), 5e-324, -5e-324, math.MaxFloat64, -math.MaxFloat64, 1, -1}
+
 var wildMags = []float64{0, 1e-300, 1e-150, 1e-30, 1e-8, 1, 3, 1e8, 1e30, 1e150, 1e300}
 
 // DrawValsMode draws n values in a regime:
@@ -136,6 +139,15 @@ func DrawValsMode(t *rapid.T, n, leaf int, mode string) []float64 {
 					v[i] = -v[i]
 				}
 			}
+		case "bits":
+			switch rapid.IntRange(0, 2).Draw(t, "kind") {
+			case 0:
+				v[i] = float64(rapid.IntRange(-24, 24).Draw(t, "v"))/8 + j
+			case 1:
+				v[i] = float64(i + 1) // position code
+			default:
+				v[i] = rapid.SampledFrom(specialBits).Draw(t, "special")
+			}
 		default:
 			panic("DrawValsMode: " + mode)
 		}
@@ -150,8 +162,11 @@ type single struct {
 }
 
 func (s *single) leaf(shape []int, mode string) int {
+	if s.cfg.Bits {
+		mode = "bits"
+	}
 	if s.cfg.Wild {
-		if mode == "std" || mode == "zeros" {
+		if mode == "std" || mode == "zeros" || rapid.Bool().Draw(s.t, "wildanyway") {
 			mode = "wild"
 		}
 	}
